@@ -719,6 +719,88 @@ def work_outputs(chunk):
     return acc
 
 
+# -- rows are independent ------------------------------------------------------------------------------
+# entry [i, j] is a statement about f_i alone: the row of a stacked map must not depend on which other components are
+# stacked with it (a decision taken for the whole table instead of per entry shows here)
+
+def work_rows(chunk):
+    import numdifftools as nd
+    acc = fw.Acc()
+    for spec, ptk, method, order in chunk:
+        family, out, m, n, k, variant = spec
+        fun = ridge.make_fun(spec)
+        x = np.array(ridge.point(ptk, n), dtype=float)
+        status, full = call(lambda: nd.Jacobian(fun, method=method, order=order, full_output=True)(x))
+        if status != 'ok':
+            continue           # reported by the Jacobian part
+        J, info = full
+        J, est = np.asarray(J), np.asarray(info.error_estimate)
+        prob = None
+        for i in range(m):
+            # the same component together with a component that does not depend on x at all (zero row)
+            def pair(t, i=i):
+                return np.array([fun(t)[i], 1.0 + 0.0 * t[0]])
+            status, r = call(lambda: nd.Jacobian(pair, method=method, order=order, full_output=True)(x))
+            if status != 'ok':
+                prob = 'row %d stacked with a constant component: %s' % (i, r)
+                break
+            Ji, ei = np.asarray(r[0]), np.asarray(r[1].error_estimate)
+            if not (bits_equal(Ji[0], J[i]) and bits_equal(ei[0], est[i])):
+                prob = ('row %d of the %d-row map: %r (estimates %r); the same component stacked with a constant one: %r '
+                        '(estimates %r)' % (i, m, J[i].tolist(), est[i].tolist(), Ji[0].tolist(), ei[0].tolist()))
+                break
+        acc.case(('rows', spec, ptk, method, order), nontrivial=True, cell='rows/%s' % method, outcome=prob is None)
+        if prob:
+            acc.violation('C03:Jacobian:row-depends-on-other-components:%s' % method,
+                          dict(part='rows', spec=list(spec), point=ptk, method=method, order=order),
+                          'Jacobian(f, method=%r, order=%d)(%r), f = %s: %s' % (method, order, x.tolist(), ridge.describe(spec), prob), m * 10 + n)
+    return acc
+
+
+# -- aliased coarse steps ------------------------------------------------------------------------------
+# sin(2 pi k t) with integer k >= 8: the five largest default steps 2, 1, 1/2, 1/4, 1/8 are multiples of the half period,
+# so the coarse rows of the table agree on the wrong value 0 with a zero error estimate; the library's outlier test
+# (rows more than a factor 10 away from the median) discards them.  That must work per entry - whatever the other
+# entries of the Jacobian are (an entry that is exactly zero, an ordinary one).
+
+def work_aliased(chunk):
+    import numdifftools as nd
+    acc = fw.Acc()
+    for k, method, order, companion in chunk:
+        w = 2.0 * math.pi * k
+        x = np.array([0.3, -0.4, 0.7])
+
+        def f(t):
+            second = t[1] * t[1] if companion == 'zero-entry' else t[0] * t[1] + t[2]
+            return np.array([np.sin(w * t[0]) - 0.2 * t[1] * t[2], second, 0.5 * t[2] + t[0] * 0.0 + t[1]])
+
+        def g(t):
+            return np.sin(w * t[0]) + (t[2] * t[2] if companion == 'zero-entry' else t[1] * t[2] + t[0] * t[1])
+        J = np.array([[w * math.cos(w * x[0]), -0.2 * x[2], -0.2 * x[1]],
+                      [0.0, 2 * x[1], 0.0] if companion == 'zero-entry' else [x[1], x[0], 1.0],
+                      [0.0, 1.0, 0.5]])
+        G = np.array([w * math.cos(w * x[0]), 0.0, 2 * x[2]] if companion == 'zero-entry' else
+                     [w * math.cos(w * x[0]) + x[1], x[2] + x[0], x[1]])
+        for cls, fun, want in (('Jacobian', f, J), ('Gradient', g, G)):
+            status, val = call(lambda: getattr(nd, cls)(fun, method=method, order=order)(x))
+            case = ('aliased', k, method, order, companion, cls)
+            jc = dict(part='aliased', k=k, method=method, order=order, companion=companion, cls=cls)
+            if status != 'ok':
+                acc.case(case, nontrivial=True, cell='aliased/%s' % companion, outcome=status)
+                acc.violation('C03:%s:%s:aliased-periodic' % (cls, status), jc, str(val), k)
+                continue
+            err = float(np.max(np.abs(np.asarray(val) - want)))
+            ok = err <= 1e-6 * w
+            acc.case(case, nontrivial=True, cell='aliased/%s' % companion, outcome=ok)
+            acc.maxi('aliased/worst error over 1e-6 x frequency', err / (1e-6 * w))
+            if not ok:
+                acc.violation('C03:%s:envelope:%s:aliased-periodic-entry-next-to-%s' % (cls, method, companion), jc,
+                              '%s(f, method=%r, order=%d)(%r), first component sin(2 pi %d x0) + ...: max error %.3g > %.3g; '
+                              'got %r, exact %r' % (cls, method, order, x.tolist(), k, err, 1e-6 * w,
+                                                    np.asarray(val).tolist(), want.tolist()), k)
+    return acc
+
+
 def work_select(chunk, tier='quick'):
     acc = fw.Acc()
     nmax = 6 if tier == 'quick' else 8
@@ -764,6 +846,11 @@ def run(ctx):
     items = [(s, p) for s in sp for p in ridge.POINT_KINDS]
     items.sort(key=lambda it: -(it[0][2] * it[0][3] * it[0][4] + (10 * it[0][3] if it[0][1] == 'scalar' else 0)))
     acc = ctx.pmap(work, items, chunk=1, tier=ctx.tier)
+    rows = [(sp_, p, me, o) for sp_ in sp if sp_[1] == 'vector' and sp_[2] in (2, 3) and sp_[3] in (1, 2, 3) for p in ridge.POINT_KINDS
+            for me in METHODS for o in ORDERS]
+    acc.merge(ctx.pmap(work_rows, rows, chunk=8))
+    acc.merge(ctx.pmap(work_aliased, [(k, me, o, c) for k in (8, 16) for me in ('central', 'forward', 'backward') for o in ORDERS
+                                      for c in ('zero-entry', 'ordinary')], chunk=3))
     acc.merge(ctx.pmap(work_outputs, [(c, m, o) for c in ('Jacobian', 'Gradient') for m in METHODS for o in ORDERS], chunk=2))
     acc.merge(ctx.pmap(work_select, [(mname, p) for mname in SELECT_MAPS for p in ridge.POINT_KINDS], chunk=1, tier=ctx.tier))
     b = bounds(ctx.tier)
@@ -822,6 +909,14 @@ def run(ctx):
 
 
 def replay(case):
+    if case.get('part') == 'aliased':
+        a = work_aliased([(case['k'], case['method'], int(case['order']), case['companion'])])
+        bad = [r['detail'] for k, (n, recs) in a.viol.items() for r in recs]
+        return not bad, '%r -> %s' % (case, bad or 'resolved')
+    if case.get('part') == 'rows':
+        a = work_rows([(tuple(case['spec']), case['point'], case['method'], int(case['order']))])
+        bad = [r['detail'] for k, (n, recs) in a.viol.items() for r in recs]
+        return not bad, '%r -> %s' % (case, bad or 'rows independent')
     if case.get('part') == 'outputs':
         a = work_outputs([(case['cls'], case['method'], int(case['order']))])
         bad = [r['detail'] for k, (n, recs) in a.viol.items() for r in recs]
